@@ -5769,6 +5769,39 @@ def running_row_count(chk, repo):
 
 
 # ---------------------------------------------------------------------------
+def _binds_name(mod, name):
+    """does anything in the module (at any level: assignment, def, class, import, parameter, loop / with / except target,
+    star import) bind `name`, so that the bare name need not be the builtin"""
+    if mod is None or mod.star:
+        return True
+    for x in ast.walk(mod.tree):
+        if isinstance(x, ast.Name) and x.id == name and not isinstance(x.ctx, ast.Load):
+            return True
+        if isinstance(x, (ast.FunctionDef, ast.AsyncFunctionDef, ast.ClassDef)) and x.name == name:
+            return True
+        if isinstance(x, ast.arg) and x.arg == name:
+            return True
+        if isinstance(x, ast.alias) and (x.asname or x.name.split(".")[0]) in (name, "*"):
+            return True
+        if isinstance(x, ast.ExceptHandler) and x.name == name:
+            return True
+        if type(x).__name__ in ("MatchAs", "MatchStar") and x.name == name or type(x).__name__ == "MatchMapping" and x.rest == name:
+            return True
+        if isinstance(x, (ast.Global, ast.Nonlocal)) and name in x.names:
+            return True
+    return False
+
+
+def _divmod_quotient(t, mod):
+    """`divmod(a, b)[0]` with the builtin divmod (two positional arguments, nothing in the module rebinds the name) is `a // b`;
+    any other term is returned as it is"""
+    if len(t) == 3 and t[0] == "sub" and t[2] == lit(0) and isinstance(t[1], tuple) and len(t[1]) == 4 and t[1][0] == "call" \
+            and t[1][1] == "divmod" and len(t[1][2]) == 2 and not t[1][3] and not any(a[0] == "star" for a in t[1][2]) \
+            and not _binds_name(mod, "divmod"):
+        return ("op", "//", t[1][2][0], t[1][2][1])
+    return t
+
+
 def row_count(chk, repo):
     """R01.6: when the row count of a binary file is not given it is (file size - data offset) // row size: a header-bearing file
     read through the plain record reader (recfile.read / io.read with dtype= and offset=) must not count its header as rows"""
@@ -5790,6 +5823,8 @@ def row_count(chk, repo):
             break
         chk.analysed_unit(sub.fi.qualname)
         ev, fi = sub, sub.fi
+    # the quotient of the builtin divmod(a, b) -- `divmod(a, b)[0]`, or the first name of `q, r = divmod(a, b)` -- is a // b
+    rets = [(n, _divmod_quotient(t, ev.mod)) for n, t in rets]
     cands = [(n, t) for n, t in rets if t[0] == "op" and t[1] == "//"]
     found = len(rets) == 1 and len(cands) == 1
     chk.ob(R, "_count_nrows::binary-arm-found", True if found else None, fi.where(), "on the binary path the row count returned is an integer division (%s)" % [show(t) for n, t in rets])
